@@ -1203,6 +1203,10 @@ def rules(rep, facts):
             rep.rules['C01/R1']['floor'] = min(rep.rules['C01/R1'].get('floor') or 0, len(rep.rules['C01/R1']['obligations'])) or None
         rep.notes.append(f'C01/R1 could not pair {len(moot)} lexical atoms with the ABNF by position ({moot[0]["detail"][:140]}); the functions concerned accept exactly the language of '
                          f'their ABNF rules (C01/R10), so the atoms are the right ones.')
+    # what the grammar rules hand to the parser state decides the rest of validity (names defined twice): the semantic actions and the state evaluated on model
+    # documents, verdict and tree against an independent decoder (shared with C09/R10)
+    from .rules_events import r_verdicts
+    r_verdicts(rep, facts, rid='C01/R15')
     if 'toml' in facts.crates:
         r7_single_parser(rep, facts)
     if 'toml' in facts.crates:
